@@ -109,8 +109,9 @@ theorem apply0_hist_frame (w : World) (l : Label) (b : BId) (h : writesHist l = 
   case peRecTrip p b' e =>
     cases p <;> simp [apply0, rlBack, setBus_bus] <;> split <;> simp_all
   case hSched p i b' e k =>
-    simp only [apply0]
-    cases hA : w.act p <;> simp [hA]
+    show ((applySched w p i b' e k).bus b).hist = _ ∧ ((applySched w p i b' e k).bus b).maxh = _
+    unfold applySched
+    cases hA : w.act p <;> simp
   case hStart => simp [apply0]
   case hEnd i out =>
     simp only [apply0]
